@@ -41,6 +41,26 @@ CHECKS = {
  "C14": ("every ordered pair of input files x the complete set of valid flag vectors x 3 binaries x {file, stdin}: exit status, stdout and -o file of the real process compared with an in-process contract model that calls the library; -p round trip for every diff-mode run; translate modes, git diff driver, invalid vectors",
          "6 and Appendix B", "complete enumeration of the CLI configuration space (flag vectors x inputs x binaries) against a library-level contract model"),
 }
+EXTRA = {
+ "C01": "; ladder universes beyond the small scope (DESIGN 3.2); chains in which a is the live result of an earlier Patch, two hops; near-number arrays under Precision(0.1)",
+ "C02": "; wide-context and strict-then-merge shapes; CLI leg: `jd a b` equals the library rendering, `jd -p` of it gives b, also with -o over a stale file",
+ "C03": "; complete triples over ulp-neighbour and look-alike-string arrays; hand-written hunks with 0-3 context lines per side; reordered hunks; strict hunks as text followed by a merge hunk",
+ "C04": "; alias values in long lists / wide objects; both orders of Precision with the set options; duplicate / null / missing / look-alike ids under SetKeys",
+ "C05": "; operands that are live results of Patch built under each reading; loose keyed arrays; CLI legs with invalid UTF-8 and YAML files",
+ "C06": "; live operands; Precision legs; lists of 1 100 elements; every object over four keys inside a list",
+ "C07": "; documents diffed against themselves; merge mode with nulls in a",
+ "C08": "; bags of 33-75 members; complete triples over hash-aliasing members; hand-written set / multiset hunks with a value on both sides",
+ "C09": "; keys that collide with nested paths when printed; the refusal clause read literally",
+ "C10": "; displaced context tests; patch text with other text around it; pointer spellings (no leading '/', leading zeros, signs)",
+ "C11": "; CLI leg (-f merge with -o, -color, -set, -yaml)",
+ "C12": "; two patches in a row on the live result; depth-110 patches; CLI leg (target from file, stdin, -yaml, in place)",
+ "C13": "; failure-message ladder; two-step legs; YAML token alphabet; 4/5-operation patch programs; unwritable -o targets",
+ "C14": "; stdin as pipe / positioned regular file / /dev/null; hostile process environment; BOM and invalid UTF-8 inputs; patching in place",
+ "C15": "; hand-written hunk sequences under every call history; YAML mappings read 30 times; environment flipped between repetitions; isolation leg against fresh processes; controlled map-iteration order; free-running -race pass (goroutines calling the read-only operations on unrelated and shared values)",
+ "C16": "; every short JSON number text fed to both readers; unescaped character forms; YAML files with raw tabs; file-reading entry points",
+ "C17": "; CLI leg through `jd -v2=false` with composite -setkeys; free-running -race pass on package lib",
+ "C18": "; the re-read merge diff is rendered and read again",
+}
 NOT_YET = {}
 def main():
     props=[json.loads(l) for l in open('/verif/properties.jsonl')]
@@ -56,7 +76,7 @@ def main():
               "evidence_file":f"/verif/evidence/{pid}.json",
               "replay_cmd_template":"./.work/bin/jdmc replay {path}",
               "engine":"jdmc",
-              "level_claimed":{"category":"model_checking","text":text,"design_ref":f"DESIGN.md section {sec} ({pid})"},
+              "level_claimed":{"category":"model_checking","text":text+EXTRA.get(pid,""),"design_ref":f"DESIGN.md section {sec} ({pid}), section 13 (legs added after the design)"},
               "level_note":"trusted: Go toolchain/runtime, encoding/json scanning, the reference models in /verif/mc/ref (self-tested against RFC 6902 App. A, RFC 7386 App. A, brute-force LCS and the documented hunk examples at the start of every run); bounds as listed in the evidence file",
               "technique":tech})
         else:
